@@ -211,90 +211,103 @@ func AcceptSites(p *core.Prog, d Driver) []AcceptSite {
 
 // composeThroughCallers prepends, to every path of an accept site that lives in a callee of the matcher, the conditions
 // of each caller path that reaches the (tail) call, lifting the callee's conditions and field values into the caller's
-// vocabulary. The outermost frame is the function ReceiveProbe calls, as for sites written inline.
+// vocabulary. A helper shared by several arms (each arm a method of its own) is composed along every call chain. The
+// outermost frame is the function ReceiveProbe calls, as for sites written inline.
 func composeThroughCallers(p *core.Prog, d Driver, site AcceptSite) AcceptSite {
 	if site.Ret == nil {
 		return site
 	}
-	for depth := 0; depth < 3; depth++ {
-		chains := callChains(p, d.ReceiveProbe, site.Fn)
-		if len(chains) == 0 {
-			return site
+	paths, outer, ok := composeUp(p, d, site.Fn, site.Paths, 0)
+	if !ok {
+		return site
+	}
+	site.Paths = paths
+	site.Fn = outer
+	return site
+}
+
+func composeUp(p *core.Prog, d Driver, fn *ssa.Function, inner []PathInfo, depth int) ([]PathInfo, *ssa.Function, bool) {
+	chains := callChains(p, d.ReceiveProbe, fn)
+	if len(chains) == 0 || depth > 3 {
+		return inner, fn, true
+	}
+	direct := false
+	for _, ch := range chains {
+		if len(ch) <= 1 {
+			direct = true
 		}
-		if len(chains[0]) <= 1 {
-			return site // called directly by ReceiveProbe: already the outermost frame
+	}
+	if direct {
+		return inner, fn, true // called directly by ReceiveProbe: already the outermost frame
+	}
+	var callers []*ssa.Call
+	seen := map[*ssa.Call]bool{}
+	for _, ch := range chains {
+		cs := ch[len(ch)-1]
+		if !seen[cs] {
+			seen[cs] = true
+			callers = append(callers, cs)
 		}
-		// every caller must forward the callee's results unchanged
-		var callers []*ssa.Call
-		seen := map[*ssa.Call]bool{}
-		for _, ch := range chains {
-			cs := ch[len(ch)-1]
-			if !seen[cs] {
-				seen[cs] = true
-				callers = append(callers, cs)
+	}
+	var out []PathInfo
+	var outer *ssa.Function
+	for _, cs := range callers {
+		h := cs.Parent()
+		// tail position: some return of h forwards both results of cs
+		tail := false
+		for _, b := range h.Blocks {
+			if ret, isRet := b.Instrs[len(b.Instrs)-1].(*ssa.Return); isRet && len(ret.Results) == 2 {
+				e0, ok0 := ret.Results[0].(*ssa.Extract)
+				e1, ok1 := ret.Results[1].(*ssa.Extract)
+				if ok0 && ok1 && e0.Tuple == ssa.Value(cs) && e1.Tuple == ssa.Value(cs) {
+					tail = true
+				}
 			}
+		}
+		if !tail {
+			return nil, nil, false
 		}
 		var composed []PathInfo
-		var outer *ssa.Function
-		ok := true
-		for _, cs := range callers {
-			h := cs.Parent()
-			if outer != nil && outer != h {
-				ok = false // called from several different functions: keep it simple, stay undecided
-			}
-			outer = h
-			// tail position: some return of h forwards both results of cs
-			tail := false
-			for _, b := range h.Blocks {
-				if ret, isRet := b.Instrs[len(b.Instrs)-1].(*ssa.Return); isRet && len(ret.Results) == 2 {
-					e0, ok0 := ret.Results[0].(*ssa.Extract)
-					e1, ok1 := ret.Results[1].(*ssa.Extract)
-					if ok0 && ok1 && e0.Tuple == ssa.Value(cs) && e1.Tuple == ssa.Value(cs) {
-						tail = true
-					}
-				}
-			}
-			if !tail {
-				ok = false
+		cpaths, _ := core.EnumPaths(h, cs.Block(), 5000)
+		for _, pa := range cpaths {
+			env := core.NewEnv(p, pa)
+			atoms := env.Atoms()
+			if !core.Feasible(atoms) {
 				continue
 			}
-			paths, _ := core.EnumPaths(h, cs.Block(), 5000)
-			for _, pa := range paths {
-				env := core.NewEnv(p, pa)
-				atoms := env.Atoms()
-				if !core.Feasible(atoms) {
+			// the caller's own checks may sit in predicate helpers as well
+			for _, cav := range expandHelperAtoms(p, d, atoms, 0) {
+				catoms := cav.resolved()
+				if !core.Feasible(catoms) {
 					continue
 				}
-				// the caller's own checks may sit in predicate helpers as well
-				for _, cav := range expandHelperAtoms(p, d, atoms, 0) {
-					catoms := cav.resolved()
-					if !core.Feasible(catoms) {
+				for _, in := range inner {
+					variant := append([]core.Atom{}, catoms...)
+					for _, a := range in.Atoms {
+						variant = append(variant, core.Atom{Cond: applySubs(liftWithEnv(env, a.Cond, cs), cav.Subs), Sign: a.Sign, Block: cs.Block()})
+					}
+					if !core.Feasible(variant) {
 						continue
 					}
-					for _, inner := range site.Paths {
-						variant := append([]core.Atom{}, catoms...)
-						for _, a := range inner.Atoms {
-							variant = append(variant, core.Atom{Cond: applySubs(liftWithEnv(env, a.Cond, cs), cav.Subs), Sign: a.Sign, Block: cs.Block()})
-						}
-						if !core.Feasible(variant) {
-							continue
-						}
-						fields := map[string]*core.Term{}
-						for k, v := range inner.Fields {
-							fields[k] = applySubs(liftWithEnv(env, v, cs), cav.Subs)
-						}
-						composed = append(composed, PathInfo{Path: pa, Env: env, Atoms: variant, Fields: fields})
+					fields := map[string]*core.Term{}
+					for k, v := range in.Fields {
+						fields[k] = applySubs(liftWithEnv(env, v, cs), cav.Subs)
 					}
+					composed = append(composed, PathInfo{Path: pa, Env: env, Atoms: variant, Fields: fields})
 				}
 			}
 		}
-		if !ok || outer == nil {
-			return site
+		up, o, ok := composeUp(p, d, h, composed, depth+1)
+		if !ok {
+			return nil, nil, false
 		}
-		site.Paths = composed
-		site.Fn = outer
+		out = append(out, up...)
+		outer = o
 	}
-	return site
+	if outer == nil {
+		return nil, nil, false
+	}
+	return out, outer, true
 }
 
 // valueSub: result #idx of the call at site is, on the chosen success path of the callee, the term repl (caller's vocabulary).
